@@ -176,6 +176,54 @@ def run(p, led, tier):
         else:
             led.ok("C07-R3", key, where(runm, runm.node), f"cell ({z},{y}): request_hash = {detail}; issuer = assessor's name")
 
+    # ---------------- R3b a request submitted from inside an agent (re-entrant run on the same loop) leaves the outer
+    # request's token bound to the outer prompt and its cached reply filed under the outer prompt
+    key = "run ▸ re-entrant request from inside an agent ▸ token and cache stay bound to their own prompt"
+    from ..fdai import PyRaise as _PyRaise
+
+    def go_re(o):
+        it, obj = h.build(o, "AND", False, True, "CLOSED", ("EXECUTE", "PERMIT"))
+        runm_ = p.find_method(h.loop, "run")
+        base_express = it.stubs["BioAgent.express"]
+        state = {"nested": False}
+
+        def express(interp, args, kwargs):
+            role = args[0].fields.get("role")
+            if role == "Executor" and not state["nested"]:
+                state["nested"] = True
+                it._verdicts["v"] = ("BLOCK", "BLOCK")            # the sub-request is refused by both agents
+                try:
+                    interp.call_fi(runm_, [obj, Unknown("inner_prompt")], {})
+                except _PyRaise:
+                    pass
+                it._verdicts["v"] = ("EXECUTE", "PERMIT")
+            return base_express(interp, args, kwargs)
+        it.stubs["BioAgent.express"] = express
+        outer = it.call_fi(runm_, [obj, Unknown("user_prompt")], {})
+        tok = outer.fields.get("approval_token") if isinstance(outer, Obj) else None
+        rh = tok.fields.get("request_hash") if isinstance(tok, Obj) else None
+        # afterwards the sub-request is submitted on its own: it must be judged (or answered from ITS cached refusal), never
+        # served the outer request's permission
+        it._verdicts["v"] = ("BLOCK", "BLOCK")
+        later = it.call_fi(runm_, [obj, Unknown("inner_prompt")], {})
+        return dict(rh=rh.sym if isinstance(rh, Unknown) else repr(rh), outer_blocked=outer.fields.get("blocked") if isinstance(outer, Obj) else None,
+                    later_blocked=later.fields.get("blocked") if isinstance(later, Obj) else None)
+    try:
+        outs_re = [r for _, r in explore(go_re, max_paths=200)]
+        probs_re = []
+        for r in outs_re:
+            if r["outer_blocked"] is False and "inner_prompt" in r["rh"]:
+                probs_re.append(f"the outer request's token is bound to `{r['rh'][:120]}`: the fingerprint of the request submitted from inside the agent")
+            if r["later_blocked"] is not True:
+                probs_re.append("the refused sub-request, submitted again on its own, comes back not-blocked (it is served the outer request's cached permission)")
+        if probs_re:
+            led.fail("C07-R3", key, where(runm, runm.node), sorted(set(probs_re))[0], path=sorted(set(probs_re))[:4],
+                     witness="an executor that submits a dangerous sub-request from inside express(): the outer approval token carries the sub-request's hash")
+        else:
+            led.ok("C07-R3", key, where(runm, runm.node), f"{len(outs_re)} path(s): the outer token derives from the outer prompt only; the sub-request stays refused afterwards")
+    except Imprecise as e:
+        led.undecided("C07-R3", key, where(runm, runm.node), f"re-entrant history not interpretable: {e}")
+
     # ---------------- R4 cache
     for (z, y) in (("EXECUTE", "PERMIT"), ("EXECUTE", "BLOCK")):
         key = f"cache ▸ second call with the same prompt ▸ ({z},{y})"
